@@ -105,6 +105,7 @@ class Check:
         self.unmodelled = {}
         self.functions = set()
         self.extra = {}
+        self._ob_sites = set()
 
     # ---------------------------------------------------------------- analysis
     def load(self):
@@ -153,7 +154,10 @@ class Check:
             d = r.data
             if fn_filter and not fn_filter(r.site[0]):
                 continue
-            n += 1
+            sk = (r.site[0], r.site[1], r.site[2], d['okind'])
+            if sk not in self._ob_sites:
+                self._ob_sites.add(sk)
+                n += 1
             self.obligations += 1
             if d['ok']:
                 self.discharged += 1
@@ -397,7 +401,7 @@ def encap_cfg(facts, out_buffer_root=None, extra=None):
     return cfg
 
 
-def analyse_writer(ck, key, tag='', extra=None):
+def analyse_writer(ck, key, tag='', extra=None, premise=None):
     """analyse an emitter (function with a `buffer: &mut [u8]` parameter) with the ghosts on"""
     cfg = encap_cfg(ck.facts, extra=extra)
 
@@ -406,6 +410,8 @@ def analyse_writer(ck, key, tag='', extra=None):
         for i in range(1, body.arg_count + 1):
             if body.local_names.get(i) == 'buffer':
                 cfg['_holder']['buf'] = args[i - 1][1].root
+        if premise:
+            premise(I, w, args, body)
     return ck.analyse(key, cfg, assume=bind, tag=tag)
 
 
